@@ -15,6 +15,7 @@ package dedup
 
 import (
 	"sync"
+	"sync/atomic"
 	"time"
 
 	"github.com/andres-erbsen/clock"
@@ -35,6 +36,12 @@ type task struct {
 	running   bool
 	output    interface{}
 	expiresAt time.Time
+
+	// refs counts the callers of Limiter.Run currently holding this task. It
+	// is incremented under the limiter lock, so that the garbage collector
+	// (which holds the write lock) never deletes a task somebody is about to
+	// run.
+	refs int32
 }
 
 func newTask(input interface{}) *task {
@@ -76,6 +83,9 @@ func (l *Limiter) Run(input interface{}) interface{} {
 
 	l.RLock()
 	t, ok := l.tasks[input]
+	if ok {
+		atomic.AddInt32(&t.refs, 1)
+	}
 	l.RUnlock()
 	if !ok {
 		// Slow path, must initialize task struct under global write lock.
@@ -85,8 +95,10 @@ func (l *Limiter) Run(input interface{}) interface{} {
 			t = newTask(input)
 			l.tasks[input] = t
 		}
+		atomic.AddInt32(&t.refs, 1)
 		l.Unlock()
 	}
+	defer atomic.AddInt32(&t.refs, -1)
 	return l.getOutput(t)
 }
 
@@ -130,7 +142,7 @@ func (gc *limiterTaskGC) Run() {
 
 	for input, t := range gc.limiter.tasks {
 		t.cond.L.Lock()
-		expired := t.expired(gc.limiter.clk.Now()) && !t.running
+		expired := t.expired(gc.limiter.clk.Now()) && !t.running && atomic.LoadInt32(&t.refs) == 0
 		t.cond.L.Unlock()
 		if expired {
 			delete(gc.limiter.tasks, input)
